@@ -6,19 +6,19 @@ V = os.path.dirname(os.path.dirname(os.path.abspath(__file__)))
 W = "trusted: overlay rewrite (virtual clock), harness spies; sequential histories (schedules are C08/C16)"
 CLAIMED = {
  "C01": dict(level="exploration", engine="E1-world", technique="model-based stateful PBT (rapid) with round-trip + differential oracle against an independent reference decryptor",
-   text="Thousands of generated histories over the real SDK (1-3 factories, drawn cache policies, virtual clock, out-of-band revocation/rotation, restarts) with every decrypt compared to the recorded payload, and every record re-decrypted by a fresh factory and by a reference decryptor from a store snapshot. Sampled, not exhaustive; sequential histories.",
+   text="Thousands of generated histories over the real SDK (1-3 factories, drawn cache policies, virtual clock, out-of-band revocation/rotation, restarts) with every decrypt compared to the recorded payload, and every record re-decrypted by a fresh factory and by a reference decryptor from a store snapshot. Sampled, not exhaustive; sequential histories. A third of the histories run over the real metastore implementations (memory, SQL dialects, DynamoDB v1/v2) on semantic fakes of their databases.",
    note="trusted: overlay rewrite (clock), the reference decryptor's reading of the docs; schedules are covered by C08/C16, not here", ref="3/C01"),
  "C02": dict(level="fault_enumeration", engine="E2-faults", technique="fault-position enumeration over rapid-drawn scenarios, oracle = store snapshot + reference decryptor at the instant Encrypt returns",
    text="For rapid-drawn scenarios (10 key states x cache configurations) every metastore/KMS call index of the operation receives every applicable fault, and every pair of faults (sampled in quick, complete in thorough); a returned record must be decryptable from the store snapshot alone, failures must be errors, and operations after the faults must succeed.",
    note="faults injected at the Metastore/KMS interfaces of harness fakes; crash = fresh process with snapshot+KMS; trusted: reference decryptor", ref="3/C02"),
  "C03": dict(level="exploration", engine="E1-world", technique="stateful PBT with invariants over the complete AEAD/KMS/store/log history (spies) and multi-pattern leak scanning",
-   text="Histories with bursts of hundreds of encrypts per key; every AEAD encryption must be one of three legitimate wrap forms with independently derived key identities, all (key, nonce) pairs distinct, keys from CreateRandom in the same call, and no key bytes or payload markers in any emitted record, row, log line or KMS request.",
+   text="Histories with bursts of hundreds of encrypts per key; every AEAD encryption must be one of three legitimate wrap forms with independently derived key identities, all (key, nonce) pairs distinct, keys from CreateRandom in the same call, and no key bytes or payload markers in any emitted record, row, log line or KMS request. A quarter of the histories run over real metastore implementations; payloads up to 70 KB; the caller's record is scanned after Decrypt.",
    note="uniqueness/provenance/length are checked, not randomness quality; "+W, ref="3/C03"),
  "C04": dict(level="exploration", engine="E1-world", technique="stateful PBT with virtual clock; invariant over (record, time, store) after every encrypt",
-   text="Generated histories with clock steps concentrated on expiry and revoke-check boundaries; every produced record's IK age, the parents of IK rows written, and use of IKs under expired SKs are checked against the policy at the virtual time of the call.",
+   text="Generated histories with clock steps concentrated on expiry and revoke-check boundaries; every produced record's IK age, the parents of IK rows written, and use of IKs under expired SKs are checked against the policy at the virtual time of the call. A quarter of the histories run over real metastore implementations; compound histories (IK younger than its SK, decrypt of an old generation followed by an encrypt) are generated on purpose.",
    note=W+"; demanded only when a later creation stamp was available throughout the last interval", ref="3/C04"),
  "C05": dict(level="exploration", engine="E1-world", technique="stateful PBT with virtual clock and out-of-band revocation; invariant over (record, revocation time, store)",
-   text="Generated histories that revoke latest/older IKs and SKs under live sessions and other processes' rotations; after the bound (1 interval IK, 2 intervals SK, 0 without caching) a record must name an unrevoked stored IK under an unrevoked stored SK, and records under revoked keys must stay decryptable.",
+   text="Generated histories that revoke latest/older IKs and SKs under live sessions and other processes' rotations; after the bound (1 interval IK, 2 intervals SK, 0 without caching) a record must name an unrevoked stored IK under an unrevoked stored SK, and records under revoked keys must stay decryptable. A third of the histories run over real metastore implementations; RevokeCheckInterval 0 included; compound histories (revoked SK, rotation, eviction pressure, old record, encrypt).",
    note=W+"; demanded only when a later creation stamp was available throughout the last interval", ref="3/C05"),
  "C08": dict(level="exploration", engine="E3-delay", technique="preemption-bounded schedule sampling: rapid-drawn delay plans over statement-level yield points + systematic single-preemption enumeration, with a use-after-close tracking SecretFactory as oracle",
    text="Concurrent encrypt/decrypt/session churn on one factory with tiny and asynchronous bounded caches under drawn delay plans (1-3 pauses at (site, k-th visit)); in addition every reachable yield site is taken as the single preemption point for tight configurations. Every operation must succeed with the right bytes and no secret may be read after close.",
@@ -39,19 +39,19 @@ CLAIMED = {
    text="Real mmap/mlock/mprotect: page permissions and VmFlags are read from /proc/self/smaps inside every callback, between accesses and after Close for generated programs over sizes up to 3 pages; concurrent readers and closers run under drawn delay plans with fault-to-panic conversion, an active-callback counter and a deadlock watchdog.",
    note="Linux only; schedules are sampled, not enumerated", ref="3/C11"),
  "C12": dict(level="fault_enumeration", engine="shadow-memcall", technique="exhaustive single and pair fault enumeration over the memory-primitive call sequence, with a shadow page table as oracle",
-   text="An interposed memcall implementation with a shadow page table fails every primitive index and every pair of indices of creation/read/close programs for protectedmemory (all primitives + random source) and memguard (Protect): errors surfaced, nothing left mapped/locked, wipe-before-unlock/free, reader count and Close retry, counter balance, no hang.",
+   text="An interposed memcall implementation with a shadow page table fails every primitive index and every pair of indices of creation/read/close programs for protectedmemory (all primitives + random source) and memguard (Protect): errors surfaced, nothing left mapped/locked, wipe-before-unlock/free, reader count and Close retry, counter balance, no hang. A Close parked behind a reader whose release fails, and a forced collection after every failed creation (no primitive may be called any more), are part of the programs.",
    note="memguard allocation failures cannot be injected; shadow table stands in for kernel state (real state is C11)", ref="3/C12"),
  "C13": dict(level="exploration", engine="metastore-model", technique="model-based stateful PBT against a reference key table, over semantic fakes of database/sql and DynamoDB (v1+v2 adapters)",
-   text="Random Store/Load/LoadLatest sequences over overlapping ids and timestamps on the memory, SQL (3 dialects) and both DynamoDB metastores; the fakes interpret the SQL / expressions, enforce the documented schema and serve plain reads eventually consistently, so ordering, uniqueness, consistency flags and field fidelity are checked as behaviour.",
+   text="Random Store/Load/LoadLatest sequences over overlapping ids and timestamps on the memory, SQL (3 dialects) and both DynamoDB metastores; the fakes interpret the SQL / expressions, enforce the documented schema and serve plain reads eventually consistently, so ordering, uniqueness, consistency flags and field fidelity are checked as behaviour. Stores with a dead context, 16 goroutines reading different ids through one metastore object, and concurrent same-key Stores on every backend.",
    note="trusted base: the fakes' reading of SQL / DynamoDB semantics; no real database", ref="3/C13"),
  "C14": dict(level="exploration", engine="E4-gate", technique="systematic schedule enumeration (stateless DFS over a metastore-call gate scheduler) over rapid-drawn race scenarios; convergence + store immutability + differential oracle",
-   text="2-3 processes race key creation from cold / SK-only / expired / revoked (noticed and unnoticed) states; every process blocks before each metastore call until granted, so schedules are sequences of choices: all interleavings of 2 processes x 1 encrypt are enumerated per scenario (x2 encrypts in thorough), 3 processes are sampled. Every record must decrypt in the reference, a fresh process and every other racer; no row may change; unsaved keys must be discarded.",
+   text="2-3 processes race key creation from cold / SK-only / expired / revoked (noticed and unnoticed) states; every process blocks before each metastore call until granted, so schedules are sequences of choices: all interleavings of 2 processes x 1 encrypt are enumerated per scenario (x2 encrypts in thorough), 3 processes are sampled. Every record must decrypt in the reference, a fresh process and every other racer; no row may change; unsaved keys must be discarded. Two thirds of the scenarios run over the real metastore implementations behind the gate; slow master-key wraps and same-creation-window revocations are among the start states.",
    note="granularity = metastore calls of processes sharing only the store; scenarios are sampled, their 2-process schedule spaces are complete", ref="3/C14"),
  "C15": dict(level="exploration", engine="cache-model", technique="model-based testing: exhaustive short operation sequences + long rapid sequences + rapid.MakeFuzz under go fuzz, against a reference bounded map with policy models",
-   text="All sequences up to length 5 (6 in thorough) over Set/Get/Delete x 3 keys, clock advance and Close for every policy, capacities 1-3 (and TinyLFU at 99/100/101/200) with and without expiry, plus long random sequences at capacities on both sides of every internal threshold, synchronous and asynchronous; presence is owned by the callbacks, victims checked for LRU/LFU/SLRU.",
+   text="All sequences up to length 5 (6 in thorough) over Set/Get/Delete x 3 keys, clock advance and Close for every policy, capacities 1-3 (and TinyLFU at 99/100/101/200) with and without expiry, plus long random sequences at capacities on both sides of every internal threshold, synchronous and asynchronous; presence is owned by the callbacks, victims checked for LRU/LFU/SLRU. Plus runs across several TinyLFU sample periods and a concurrent Get/Set/Delete part with run-unique values.",
    note="Delete callbacks 0 or 1, sliding expiry tolerated, TinyLFU victims and capacity 0 not asserted", ref="3/C15"),
  "C16": dict(level="exploration", engine="E3-delay", technique="stateful PBT (sequential) + preemption-bounded schedule sampling (concurrent) with a tracking SecretFactory; oracle: held sessions work, same-session sharing, exactly-once teardown",
-   text="Session cache of size 1-3 with every policy and short expiry: generated histories and concurrent workloads hold sessions across evictions and expiry, use them afterwards, and finally close everything; delay plans (random and every reachable site of session_cache.go / cache.go as single preemption) vary the schedule.",
+   text="Session cache of size 1-3 with every policy and short expiry: generated histories and concurrent workloads hold sessions across evictions and expiry, use them afterwards, and finally close everything; delay plans (random and every reachable site of session_cache.go / cache.go as single preemption) vary the schedule. Plus session caches of capacity 100/101, a hot partition got and closed by many goroutines while held, and a watchdog on every call.",
    note="schedules are sampled; which session a bounded policy evicts is not asserted", ref="3/C16"),
  "C17": dict(level="fault_enumeration", engine="aws-kms-fakes", technique="exhaustive enumeration of regional failure subsets over fake regional KMS endpoints; oracle from the endpoints' call logs (truth table)",
    text="For 1-3 regions (4 in thorough), every preferred region, every subset failing GenerateDataKey / Encrypt at wrap and Decrypt / wrong-bytes at unwrap, wrapper and unwrapper each in {v1, v2}: success conditions, envelope contents, preferred-first order, at-most-once and stop-at-first-success are checked from the call log.",
@@ -60,7 +60,7 @@ CLAIMED = {
    text="Everything the SDK emits is parsed by strict reference parsers and decrypted from the raw rows alone; everything the reference emits in each carrier's documented shape is decrypted (and adopted) by the SDK; key ids and the ciphertext||tag||nonce layout are checked by use.",
    note="trusted base: my reading of the documentation embodied in the reference implementation", ref="3/C18"),
  "C19": dict(level="exploration", engine="stream-model", technique="exhaustive short request sequences + rapid concurrent streams + real gRPC sample + native fuzz target, against a three-state protocol model and an SDK differential",
-   text="Every request sequence up to length 4 (5 in thorough) over an 11-symbol alphabet through an in-memory stream against the real NewAppEncryption, longer random sequences on up to 8 concurrent streams, and a sample through real gRPC over bufconn: one reply per request, protocol errors, round trips, no panic in any state.",
+   text="Every request sequence up to length 4 (5 in thorough) over an 11-symbol alphabet through an in-memory stream against the real NewAppEncryption, longer random sequences on up to 8 concurrent streams, and a sample through real gRPC over bufconn: one reply per request, protocol errors, round trips, no panic in any state. Plus parallel first get-sessions on a fresh server, streams kept open among others with a small session cache, and many concurrent streams for never-seen partitions.",
    note="reply to an empty request and get-session after a rejected one are left free", ref="3/C19"),
  "C20": dict(level="exploration", engine="E1-world", technique="stateful PBT with virtual clock; call-count invariants over the spy metastore/KMS log",
    text="Generated histories with repeated operations around the revoke-check interval: free repeats inside the interval, single re-read after it, at most one KMS unwrap per SK per factory per interval, nothing retained with caching disabled.",
